@@ -186,4 +186,6 @@ class ConcatenatedObject(Concatenated, ObjectBase):
                 continue
 
             self.concatenator.remove_entity(child)
-            self._children.remove(child)
+            # a property group emptied on the way has already removed itself
+            if child in self._children:
+                self._children.remove(child)
